@@ -36,6 +36,10 @@ def datasets(rng, N, n_coef):
     # the undisplaced supercell first (exact zeros, residual forces not zero), as finite-displacement workflows store it
     d_u = np.concatenate([np.zeros((1, N, 3)), rng.normal(size=(need + 4, N, 3)) * 0.05])
     out.append(("undisplaced-first", d_u, rng.normal(size=(need + 5, N, 3))))
+    # some snapshots with forces exactly zero (displacements not): rows of the least-squares problem like any other
+    f_z = rng.normal(size=(need + 5, N, 3))
+    f_z[[0, 3]] = 0.0
+    out.append(("zero-force-snapshots", rng.normal(size=(need + 5, N, 3)) * 0.05, f_z))
     # rank deficient: displacements confined to one direction of one atom
     d = np.zeros((need + 3, N, 3))
     d[:, 0, 0] = rng.normal(size=need + 3) * 0.05
